@@ -10,14 +10,16 @@ LETTERS = "ACGUT"
 
 
 def build_residues(residue_specs, model=1):
-    from rnapolis.common import ResidueAuth
+    from rnapolis.common import ResidueAuth, ResidueLabel
     from rnapolis.tertiary import Atom, Residue3D
 
     res = []
-    for chain, num, icode, rn, letter, atoms in residue_specs:
+    for chain, num, icode, rn, letter, atoms, *rest in residue_specs:
         auth = ResidueAuth(chain, num, icode, rn)
-        al = tuple(Atom(None, None, auth, model, n, float(p[0]), float(p[1]), float(p[2]), 1.0) for n, p in atoms)
-        res.append(Residue3D(None, auth, model, letter, al))
+        # optional seventh element: the label identity (label chain, label number) of an mmCIF-derived residue
+        label = ResidueLabel(rest[0][0], rest[0][1], rn) if rest and rest[0] else None
+        al = tuple(Atom(None, label, auth, model, n, float(p[0]), float(p[1]), float(p[2]), 1.0) for n, p in atoms)
+        res.append(Residue3D(label, auth, model, letter, al))
     return res
 
 
@@ -29,7 +31,8 @@ def build_structure(residue_specs):
 
 
 def rkey(nt):
-    return (nt.chain, nt.number, nt.icode)
+    lab = getattr(nt, "label", None)
+    return (nt.chain, nt.number, nt.icode) + ((lab.chain, lab.number) if lab is not None else ())
 
 
 def skey(k):
